@@ -437,3 +437,27 @@ def deflate_b64(xml):
 
 def soap_envelope(xml):
     return '<soapenv:Envelope xmlns:soapenv="http://schemas.xmlsoap.org/soap/envelope/"><soapenv:Body>%s</soapenv:Body></soapenv:Envelope>' % xml
+
+
+def encrypt_raw(plaintext, cert_idx, typ='Element', enc_id='ED2'):
+    """EncryptedData element (string) whose plaintext is the given text (any node sequence): AES-128-CBC + RSA-OAEP for pool certificate cert_idx.
+    Used to build layered / multi-node ciphertexts that the tool's own --encrypt (one element) cannot produce."""
+    import os as _os
+    from cryptography import x509
+    from cryptography.hazmat.primitives import hashes
+    from cryptography.hazmat.primitives.asymmetric import padding
+    from cryptography.hazmat.primitives.ciphers import Cipher, algorithms, modes
+    data = plaintext.encode('utf-8')
+    key, iv = _os.urandom(16), _os.urandom(16)
+    padn = 16 - (len(data) % 16)
+    padded = data + b'\x00' * (padn - 1) + bytes([padn])
+    enc = Cipher(algorithms.AES(key), modes.CBC(iv)).encryptor()
+    ct = iv + enc.update(padded) + enc.finalize()
+    with open(world.crt(cert_idx), 'rb') as f:
+        pub = x509.load_pem_x509_certificate(f.read()).public_key()
+    ek = pub.encrypt(key, padding.OAEP(mgf=padding.MGF1(hashes.SHA1()), algorithm=hashes.SHA1(), label=None))
+    b = lambda x: base64.b64encode(x).decode('ascii')
+    return ('<xenc:EncryptedData xmlns:xenc="%s" Id="%s" Type="http://www.w3.org/2001/04/xmlenc#%s"><xenc:EncryptionMethod Algorithm="%saes128-cbc"/>'
+            '<ds:KeyInfo xmlns:ds="%s"><xenc:EncryptedKey Id="%s-K"><xenc:EncryptionMethod Algorithm="%srsa-oaep-mgf1p"/><xenc:CipherData><xenc:CipherValue>%s</xenc:CipherValue>'
+            '</xenc:CipherData></xenc:EncryptedKey></ds:KeyInfo><xenc:CipherData><xenc:CipherValue>%s</xenc:CipherValue></xenc:CipherData></xenc:EncryptedData>') % (
+        XENC, enc_id, typ, XENC, DS, enc_id, XENC, b(ek), b(ct))
